@@ -516,3 +516,25 @@ _add('C02', 'End to end (Props/C16EcAll.lean): checkAllEC_dlogs_sound and checkA
 _add('C01', 'PROPER-DIVISOR CLAUSE at full strength (Props/C01Proper.lean): fermat_proper (sharp: holds iff the step bound is below (n+1)/2 - floor(sqrt n); fermat_proper_default for the default 100000 and n >= 2^63), hlbe_proper and lhw_proper without any size hypothesis, hence '
             'checkAllRSA_factors_proper: after CheckAllRSA every non-empty N_FACTORS record contains a proper divisor unless n divides another modulus of the batch — for all 17 checks, given a keypair generator returning values > 1 and a Fermat step bound below that limit. '
             'The clause is FALSE for an absurd Fermat step bound: properClause_fails (witness: bound n on a Pratt-certified 64-bit prime n records {n, 1}); the property quantifies over "every constructor parameter", so this corner is recorded as a documented limitation of the property text, not of the code.')
+
+# ---- hypotheses and coverage of the end-to-end / signature layers, disclosed in level_note (review finding F3)
+for _pid in ('C02', 'C08', 'C17', 'C18'):
+  _add(_pid, '', 'SIGNATURE-CHECK LAYER: ' + NOTES_C02S)
+for _pid in ('C01', 'C16', 'C18'):
+  _add(_pid, '', 'CheckAllRSA END TO END: ' + NOTES_RSAALL)
+for _pid in ('C02', 'C10', 'C16', 'C18'):
+  _add(_pid, '', 'CheckAllEC / CheckAllECDSASigs END TO END: ' + NOTES_ECALL)
+
+# D21 (found by the independent review, fixed in /repo 8de8de4)
+_add('C06', 'CheckKeypairDenylist after the D21 repair: a modulus of odd bit length is never flagged and the generator is not consulted for it (keypair_odd_size, keypair_gen_even_only; product_size_never_odd is the reason the real generate_key(odd) cannot return), '
+            'so keypair_step needs an even bit length; table prefixes in front of odd- and even-sized moduli are generated on every run under a 20 s alarm.')
+_add('C18', 'D21 (repaired): before 8de8de4 CheckKeypairDenylist.Check / CheckAllRSA did not RETURN for a modulus of odd bit length whose 64 leading bits are a key of the keypair table (generate_key(odd) loops forever) — the model had taken the generator as a total oracle; '
+            'the model now consults the oracle for even sizes only (keypair_gen_even_only), so checkAllRSA_total no longer relies on generate_key(odd) returning; odd-sized table-prefix moduli are part of every C06 / C18 / RsaAll run, under an alarm.')
+
+# C12 extension (Props/C12More.lean)
+_add('C12', 'Props/C12More.lean (25 further theorems): serial_second_difference_nonneg (all m >= 2, every bit string) and apen_chi_square_nonneg / apen_le_log_two (Gibbs inequality over the reals) — both statistics are >= 0, so the p-value argument is in range; '
+            'longestRuns_recurrence_correct (the recurrence = brute-force count over all 2^M strings, every M) making longestRuns_table_M128 unconditional and giving the exact M = 10000 row in full (D20: NIST\'s printed row differs in every entry); '
+            'binaryRank_is_span_rank + rank_histogram (the rank statistic is the GF(2) rank through C15, histogram = definition), rankDistribution_formula / _classical (the in-place recurrence equals the exact rank distribution for all r, c; model in exact rationals, compared with the float code every run), '
+            'rank_precomputed_table / rank_precomputed_all_sizes (the 8-digit table is the exact probability rounded or truncated, every n >= 31), overlapping_count_spec / overlapping_histogram, universal_distances / universal_distance_def. '
+            'Still model + correspondence only: ASYMPTOTIC_RANK_SF, the UniversalDistribution table (log2), the overlapping-template Markov-chain distribution, LinearComplexity histogram, LargeBinaryMatrixRank, LinearComplexityScatter, Spectral (no Lean object: float FFT), every float tail.')
+
